@@ -306,6 +306,12 @@ def r6(ctx):
         ctx.check("Engine::shutdown", item == "ExecutionRequest::Shutdown{}", "shutdown delivers only the Shutdown item",
                   sites=[sp], got=item, key="shutdown-item")
     ctx.floor("execution-link deliveries", len(found), 2)
+    # the channel wrapper hands the item straight to the tokio sender
+    UT = "barter_integration::channel::UnboundedTx"
+    ub = ctx.body(ctx.find(name="send", self_adt=UT, trait="barter_integration::channel::Tx"))
+    ctx.check("UnboundedTx::send", render(ub.return_term()) == "UnboundedSender::send(self.tx, Into::into(item))" and
+              len(ub.real_calls()) == 2, "the link wrapper forwards exactly the given item to its channel, once, and returns the channel's verdict",
+              got=render(ub.return_term()), key="wrapper")
 
 
 def r7(ctx):
